@@ -1,4 +1,44 @@
-"""G05 placeholder"""
+"""G05 (specification growth, not a listed property) — the HEAD-STATE migration
+(migration/state/headstate) and the life of a migrated database under the trie2-based state, which
+C18's note lists as not covered.  Run with ./check G05; evidence/G05.json.
+
+Specification spec/migration/HeadState.tla: the abstract state (contracts: class hash, nonce, storage
+map; declared classes), what the contracts trie commits to per contract, the new-layout contract
+record (class hash, nonce, deployment height, PERSISTED storage root) and the three legacy per-field
+entries, driven by one chain of state diffs from the C03 alphabet (declare, deploy, replace class,
+nonce, storage write incl. zero writes, system contracts): blocks applied by the new state, the
+records put back into the legacy layout (the database the upgraded binary finds), the migration as
+batches of addresses in any grouping and order with crashes and restarts, the three range deletes,
+the applied bit, then blocks on the migrated database.
+TLC (exhaustive): (P1) after the migration every head read of class hash / nonce goes through a record
+equal to the truth and the contracts trie still commits to the truth; (P2) whatever batches, order and
+crashes, the migrated database is the same function of the old one (old record, storage root zero);
+nothing is unreadable on the way; (P3) after EVERY block applied on the migrated database the
+contracts trie commits to the truth, whatever kind of entry touches a migrated contract first, and a
+persisted storage root is zero or accurate, never stale.  The switch LazyBackfill = FALSE (skip the
+storage trie of a contract with no dirty slot and a zero persisted root - the seeded change this check
+grew from) violates P3: deploy + storage write, migrate, class replacement only.
+
+Binding (replay, spec -> code), engine harness/engines/headstate: TLC-simulated behaviours are
+replayed on three real Blockchain nodes - a legacy-state node that also BUILDS every block (roots by
+its Simulate), the node under test on the new state, a new-state node that is never migrated.  The
+records of the node under test are rewritten into the legacy layout, the real headstate.Migrator runs
+under the real runner with the registry of node/migration.go (--new-state), uninterrupted and with a
+crash after EVERY durable mutation plus the crash sequence TLC drew (byte-identical database), the node
+object is rebuilt, and the post-upgrade blocks go through SanityCheckNewHeight + Store (root
+verification on) on the migrated and on the never-migrated node.  After every step: the block's
+GlobalStateRoot = refimpl.GlobalRoot(truth) (independent reference, protocol versions on both sides of
+0.14.0), the hashes of the storage tries and the combination of contracts / classes trie roots
+against the reference, every head and every historical read (class hash, nonce, every slot, classes)
+against the truth, and the persisted records field by field incl. the storage root (zero or accurate
+exactly as specified).
+
+What the binding does NOT do: upgrade a database whose TRIES were written by the legacy state. At the
+pinned commit no migration moves the legacy tries into the buckets the new state reads (the
+head-state migration consolidates contract records only), so such a database reads empty after the
+upgrade; TestLegacyUpgradeProbe records that observation in the evidence (coverage.legacy_upgrade_probe)
+without turning it into a verdict.
+"""
 import json
 import vlib
 
@@ -11,8 +51,41 @@ def run(ctx):
         res = ctx.run_engine(binary, rp["test"], rp["input"])
         ctx.absorb(res, "headstate", rp["test"])
         return ctx.finish("model_checking", "replay of one recorded behaviour")
-    b = ctx.tlc_simulate("migration", "HeadStateMBT.tla", "HeadState_sim.cfg", depth=300, seed=ctx.seed, timeout=600)
-    res = ctx.run_engine(binary, "TestHeadStateReplay", {"behaviours": b}, timeout=1200)
+
+    thorough = not ctx.quick()
+    ctx.tlc_check("migration", "MCHeadState.tla", "HeadState_quick.cfg", timeout=900)
+    r = ctx.tlc_check("migration", "MCHeadState.tla", "HeadState_nobackfill.cfg", timeout=900, expect_violation=True)
+    if r["violated"] != "RootIsCommitment":
+        raise vlib.Broken("LazyBackfill = FALSE should violate RootIsCommitment, TLC says %s" % r["violated"])
+    if thorough:
+        r = ctx.tlc_check("migration", "MCHeadState.tla", "HeadState_thorough.cfg", timeout=3000, coverage=True)
+        vlib.require_actions_covered(r)
+
+    nruns = 12 if thorough else 3
+    depth = 2500 if thorough else 700
+    behaviours = []
+    for i in range(nruns):
+        behaviours += ctx.tlc_simulate("migration", "HeadStateMBT.tla", "HeadState_sim.cfg", depth=depth,
+                                       seed=ctx.seed * 1000 + i, timeout=900)
+    res = ctx.run_engine(binary, "TestHeadStateReplay", {"behaviours": behaviours}, timeout=2400)
     ctx.absorb(res, "headstate", "TestHeadStateReplay")
-    print(res.get("stats"), res.get("_wall_s"))
-    return ctx.finish("model_checking", "TBD")
+    ctx.coverage["behaviours"] = len(behaviours)
+    ctx.coverage["steps_replayed"] = res.get("steps", 0)
+    probe = ctx.run_engine(binary, "TestLegacyUpgradeProbe", {}, timeout=600)
+    ctx.coverage["legacy_upgrade_probe"] = probe.get("stats", {}).get("legacy_upgrade_probe", "(none)")
+    ctx.assumptions += [
+        "the tries of the upgraded database are in the layout the new state reads (no migration of the legacy "
+        "tries exists at the pinned commit; see coverage.legacy_upgrade_probe)",
+        "system contracts never receive zero writes (they hold block hashes)",
+        "a crash is: the k-th durable mutation is applied and no later operation reaches the store",
+        "the legacy backend's root is trusted only because it equals the independent reference on every block",
+    ]
+    return ctx.finish(
+        "model_checking",
+        "exhaustive TLC on HeadState.tla (2 user + 1 system contract, 1 slot, 2 classes, 2 blocks before and 2 "
+        "after the upgrade with <= 2 entries, any batching / order / <= 2 crashes of the migration); the "
+        "no-backfill design must violate RootIsCommitment. Binding cases: TLC -simulate behaviours (3 user + 2 "
+        "system contracts, 3 slots, 3 classes, 2..4 blocks before and 5 after the upgrade, post-upgrade diffs of "
+        "1-2 entries half of the time so that the FIRST touch of a migrated contract is a single kind of entry) "
+        "replayed on real nodes; per behaviour the migration is crashed after every durable mutation; "
+        "non-trivial = at least one contract owning storage is migrated and touched afterwards")
